@@ -46,6 +46,10 @@ pub struct Scn {
     /// minutes, hours or years changes nothing)
     #[serde(default)]
     pub clock_offset_s: i64,
+    /// with `drop_first_fdt`: the first transmission of EVERY FDT instance is lost (each instance is first received from
+    /// its carousel repetition, after the packets of the objects it announces), not only that of the first instance
+    #[serde(default)]
+    pub every_first_tx: bool,
 }
 
 pub struct C02;
@@ -181,10 +185,20 @@ fn gen_sampled_session(rng: &mut Rng) -> SenderScn {
         objects.push(o);
     }
     let mut ops = Vec::new();
+    // (a third of the two-object sessions add and publish the second object later: a second FDT instance, which the
+    // receiver may get only after the packets of the object it announces)
+    let later = n == 2 && rng.chance(0.35);
     for i in 0..n {
-        ops.push(TimedOp { when: When::AtUs(0), op: Op::Add(i) });
+        if !(later && i == 1) {
+            ops.push(TimedOp { when: When::AtUs(0), op: Op::Add(i) });
+        }
     }
     ops.push(TimedOp { when: When::AtUs(0), op: Op::Publish });
+    if later {
+        let k = rng.range(1, 12);
+        ops.push(TimedOp { when: When::AfterPkt(k), op: Op::Add(1) });
+        ops.push(TimedOp { when: When::AfterPkt(k), op: Op::Publish });
+    }
     let poll = PollSpec {
         start_us: 0,
         gap: GapSpec::RandomUs { seed: rng.next_u64(), min: 100, max: *rng.pick(&[1_000u64, 50_000, 400_000]) },
@@ -214,6 +228,7 @@ pub fn gen(idx: u64, tier: Tier, rng: &mut Rng) -> Scn {
             },
             retime: None,
             clock_offset_s: 0,
+            every_first_tx: false,
         };
     }
     let special = rng.below(100);
@@ -230,7 +245,7 @@ pub fn gen(idx: u64, tier: Tier, rng: &mut Rng) -> Scn {
             Loss::Threshold { delta: 0, pref: 0, p_dup: 0.0, drop_first_fdt: rng.chance(0.5) }
         };
         let retime = if rng.chance(0.5) { Some(*rng.pick(&[(500u64, 1000u64), (100, 200), (2000, 1000)])) } else { None };
-        return Scn { sender, recv, loss, retime, clock_offset_s: 0 };
+        return Scn { sender, recv, loss, retime, clock_offset_s: 0, every_first_tx: false };
     }
     recv.md5_check = rng.chance(0.8);
     let loss = if rng.chance(0.5) {
@@ -250,7 +265,8 @@ pub fn gen(idx: u64, tier: Tier, rng: &mut Rng) -> Scn {
     };
     let retime = if rng.chance(0.2) { Some(*rng.pick(&[(8u64, 1000u64), (50, 5000), (3, 100)])) } else { None };
     let clock_offset_s = if sender.spec.fdt_inband_sct && rng.chance(0.15) { *rng.pick(&[2400i64, -2400, 18_000, -86_400, 31_536_000, -31_536_000]) } else { 0 };
-    Scn { sender, recv, loss, retime, clock_offset_s }
+    let every_first_tx = rng.chance(0.5);
+    Scn { sender, recv, loss, retime, clock_offset_s, every_first_tx }
 }
 
 /// Evaluate one delivered multiset (indices into the trace, order preserved).
@@ -361,6 +377,18 @@ fn evaluate(scn: &Scn, ctx: &Ctx, sess: &Session, delivered: &[usize], what: &st
     outcome
 }
 
+/// Packets of the first transmission of the first FDT instance - or, with `every_first_tx`, of every instance.
+fn first_fdt_transmissions(scn: &Scn, sess: &Session) -> std::collections::BTreeSet<usize> {
+    let mut out = std::collections::BTreeSet::new();
+    let mut seen = std::collections::BTreeSet::new();
+    for (k, t) in sess.txs.iter().enumerate() {
+        if seen.insert(t.instance_id) && (k == 0 || scn.every_first_tx) {
+            out.extend(t.pkts.iter().copied());
+        }
+    }
+    out
+}
+
 pub fn run(scn: &Scn, ctx: &Ctx, scratch: &Path) {
     let sess = match run_sender(&scn.sender, ctx, scratch) {
         Some(s) => s,
@@ -396,14 +424,14 @@ pub fn run(scn: &Scn, ctx: &Ctx, scratch: &Path) {
             }
         }
         Loss::Sampled { p_drop, burst, p_dup, drop_first_fdt } => {
-            let first_fdt_end = sess.txs.first().map(|t| t.last).unwrap_or(0);
+            let first_tx = first_fdt_transmissions(scn, &sess);
             let mut delivered = Vec::new();
             let mut no_dups = Vec::new();
             let mut bad = false;
             let mut fired = false;
             for i in 0..n {
                 let p = &sess.trace.pkts[i];
-                if *drop_first_fdt && p.dec.toi == 0 && i <= first_fdt_end {
+                if *drop_first_fdt && p.dec.toi == 0 && first_tx.contains(&i) {
                     ctx.borrow_mut().count_fault("drop-class-first-fdt");
                     fired = true;
                     continue;
@@ -451,13 +479,11 @@ pub fn run(scn: &Scn, ctx: &Ctx, scratch: &Path) {
             }
         }
         Loss::Threshold { delta, pref, p_dup, drop_first_fdt } => {
-            let first_fdt_end = sess.txs.first().map(|t| t.last).unwrap_or(0);
+            let first_tx = first_fdt_transmissions(scn, &sess);
             let mut keep = vec![true; n];
             if *drop_first_fdt && sess.txs.len() > 1 {
-                for i in 0..=first_fdt_end {
-                    if sess.trace.pkts[i].dec.toi == 0 {
-                        keep[i] = false;
-                    }
+                for i in first_tx.iter() {
+                    keep[*i] = false;
                 }
                 ctx.borrow_mut().count_fault("drop-class-first-fdt");
             }
